@@ -661,6 +661,8 @@ func driveArshal(args map[string]string) error {
 			c03Exec(c)
 		case "sweep":
 			c07SweepExec(c)
+		case "semerr":
+			semErrExec(c)
 		case "merge":
 			c14Exec(c)
 		case "ambig":
@@ -744,6 +746,8 @@ func driveArshal(args map[string]string) error {
 					}
 					c.Texts = [][]int{ints(text)}
 					c.Type = c03Routes[r.IntN(len(c03Routes))]
+				case "c16sem":
+					c.Prop, c.Kind = "C16", "semerr"
 				case "c14":
 					c.Prop, c.Kind = "C14", "merge"
 				case "c08":
@@ -1233,4 +1237,112 @@ func c07SweepExec(c *arshalCase) {
 		o[2] = ints(squeeze(bytesOf(o[2].([]int))))
 	}
 	c.Outs = outs
+}
+
+// ------------------------------------------------------------------ C16: position of a SemanticError
+
+// semErrExec builds a text that fits a random type except for one value that cannot be converted
+// (a number replaced by `true`, or any value destined for a chan field), with random whitespace
+// (also \r) in front of it, and records where Unmarshal says the error is.
+func semErrExec(c *arshalCase) {
+	defer func() {
+		if r := recover(); r != nil {
+			c.Panic = fmt.Sprint(r)
+		}
+		c.norm()
+	}()
+	r := rand.New(rand.NewPCG(c.Seed[0], c.Seed[1]))
+	cfg := &typeCfg{maxDepth: 1 + r.IntN(4), maxFields: 1 + r.IntN(5), tags: r.IntN(2) == 0, floats: true, mapKeys: []string{"string"}, plainNames: r.IntN(2) == 0}
+	td := genTypeDesc(r, cfg, 0)
+	useChan := r.IntN(3) == 0
+	if useChan || td.K != "struct" {
+		td = &tdesc{K: "struct", Fields: []fdesc{{Go: "A", T: td}, {Go: "Ch", T: &tdesc{K: "chan"}}, {Go: "Z", T: &tdesc{K: "int"}}}}
+		if !useChan {
+			td.Fields[1].T = &tdesc{K: "string"}
+		}
+	}
+	t := buildType(td)
+	c.Type = truncate(t.String(), 300)
+	var sb strings.Builder
+	genJSONFor(r, td, &sb, 0)
+	text := []byte(sb.String())
+	// candidate tokens: numbers (to be replaced by true); for chan fields the value after "Ch"
+	d := jsontext.NewDecoder(bytes.NewReader(text))
+	type cand struct{ s, e int }
+	var cands []cand
+	prevName := ""
+	depth := 0
+	for {
+		k := d.PeekKind()
+		tok, err := d.ReadToken()
+		if err != nil {
+			break
+		}
+		end := int(d.InputOffset())
+		isName := false
+		if kk, n := d.StackIndex(d.StackDepth()); kk == '{' && n%2 == 1 && k == '"' {
+			isName = true
+			prevName = tok.String()
+		}
+		switch k {
+		case '{', '[':
+			depth++
+		case '}', ']':
+			depth--
+		case '0':
+			lit := tok.String()
+			if strings.Contains(string(d.StackPointer()), "zz_unknown") {
+				break
+			}
+			if useChan {
+				if prevName == "Ch" && depth == 1 {
+					cands = append(cands, cand{end - len(lit), end})
+				}
+			} else {
+				cands = append(cands, cand{end - len(lit), end})
+			}
+		}
+		if !isName && k != '{' && k != '[' {
+			prevName = ""
+		}
+	}
+	{
+		ft := t
+		if useChan {
+			td2 := *td
+			td2.Fields = append([]fdesc{}, td.Fields...)
+			td2.Fields[1].T = &tdesc{K: "int"}
+			ft = buildType(&td2)
+		}
+		if err := jsonv2.Unmarshal(text, reflect.New(ft).Interface()); err != nil {
+			c.Note = "text does not fit"
+			return
+		}
+	}
+	if len(cands) == 0 {
+		c.Note = "no candidate"
+		return
+	}
+	cd := cands[r.IntN(len(cands))]
+	ws := []string{"", " ", "\r\n", "\t \r", "\n\n "}[r.IntN(5)]
+	repl := "true"
+	if useChan {
+		repl = string(text[cd.s:cd.e])
+	}
+	out := append(append(append([]byte{}, text[:cd.s]...), []byte(ws+repl)...), text[cd.e:]...)
+	off := cd.s + len(ws)
+	c.Texts = [][]int{ints(out)}
+	p := reflect.New(t)
+	err := jsonv2.Unmarshal(out, p.Interface())
+	var se *jsonv2.SemanticError
+	eoff, eptr := int64(-1), [][]int{}
+	kind := "nil"
+	switch {
+	case errors.As(err, &se):
+		kind, eoff, eptr = "semantic", se.ByteOffset, pointerTokens(se.JSONPointer)
+	case err != nil:
+		kind = "other"
+		c.Note = truncate(err.Error(), 200)
+	}
+	c.Tree = map[string]any{"off": off, "kind": kind, "eoff": eoff, "eptr": eptr}
 }
